@@ -12,11 +12,20 @@ package main
 // updates, events) and the application hash are byte-identical.  The `log` and
 // `info` strings are not compared: CometBFT documents them as non-deterministic
 // and they are not part of the results hash (with trace on they carry a stack trace).
+//
+// The replicas also differ in their PROCESS HISTORY (replica_perturb.go): queries, CheckTx,
+// restarts from the database and construction of further application objects happen to
+// single replicas between the blocks, as named by the input; and the block contents are
+// made sensitive to the execution environment by the probe contract of envprobe.go.  The
+// zero / non-zero pattern of every BLOCKHASH the probe evaluated is handed to the Coq model
+// (App/DeterminismModel.v, section 5) together with the HistoricalEntries parameter.
 
 import (
 	"bufio"
+	"encoding/hex"
 	"encoding/json"
 	"fmt"
+	"math/big"
 	"os"
 	"os/exec"
 	"sort"
@@ -26,6 +35,7 @@ import (
 
 	abci "github.com/cometbft/cometbft/abci/types"
 	tmproto "github.com/cometbft/cometbft/proto/tendermint/types"
+	"github.com/ethereum/go-ethereum/common"
 )
 
 func init() {
@@ -41,20 +51,23 @@ var replicaOpts = []repOpts{
 
 // wire format handed to the child process
 type rawWire struct {
-	Hdr   []byte   `json:"hdr"`
-	Votes [][]byte `json:"votes"`
-	Evid  [][]byte `json:"evid"`
-	Txs   [][]byte `json:"txs"`
-	Ops   []bhTx   `json:"ops"`
+	Hdr   []byte      `json:"hdr"`
+	Votes [][]byte    `json:"votes"`
+	Evid  [][]byte    `json:"evid"`
+	Txs   [][]byte    `json:"txs"`
+	Ops   []bhTx      `json:"ops"`
+	Pre   []bhPerturb `json:"pre,omitempty"`
 }
 type childJob struct {
 	Gen    bhGenesis `json:"gen"`
 	Opts   repOpts   `json:"opts"`
 	Blocks []rawWire `json:"blocks"`
+	Idx    int       `json:"idx"`   // the replica index perturbations address this process by
+	Probe  string    `json:"probe"` // address of the environment-probe contract (hex), "" = none
 }
 
 func toWire(rb rawBlock, b bhBlock) rawWire {
-	w := rawWire{Hdr: mustProto(&rb.Hdr), Txs: rb.Txs, Ops: b.Txs}
+	w := rawWire{Hdr: mustProto(&rb.Hdr), Txs: rb.Txs, Ops: b.Txs, Pre: b.Pre}
 	for i := range rb.Votes {
 		w.Votes = append(w.Votes, mustProto(&rb.Votes[i]))
 	}
@@ -84,16 +97,23 @@ func fromWire(w rawWire) (rawBlock, bhBlock, error) {
 		rb.Evid = append(rb.Evid, x)
 	}
 	rb.Txs = w.Txs
-	return rb, bhBlock{Txs: w.Ops}, nil
+	return rb, bhBlock{Txs: w.Ops, Pre: w.Pre}, nil
 }
 
-// follow runs recorded blocks on a freshly built replica.
-func follow(g bhGenesis, o repOpts, raws []rawBlock, blocks []bhBlock, rep *Replica) []blockResult {
+// follow runs recorded blocks on a freshly built replica; before every block the perturbations
+// addressed to replica idx happen to it.
+func follow(g bhGenesis, o repOpts, raws []rawBlock, blocks []bhBlock, rep *Replica, idx int, probe common.Address, l *perturbLog) []blockResult {
 	h := &histRun{Rep: rep}
+	rep.Probe = probe
 	set := bhInitialValSet(g)
 	h.Track = valTracker{sets: [3][]valEntry{nil, set, set}}
 	for i := range raws {
 		b := blocks[i]
+		if i == 0 {
+			rep.Probe = common.Address{} // not deployed before the first block
+		}
+		runPre(rep, g, idx, &b, &raws[i], l)
+		rep.Probe = probe
 		h.runBlock(&b, &raws[i], nil)
 		if h.Dead != "" {
 			break
@@ -119,7 +139,7 @@ func replicaChildDriver(cfg Config, out *Out) error {
 		blocks = append(blocks, b)
 	}
 	rep := newReplica(job.Gen, job.Opts)
-	res := follow(job.Gen, job.Opts, raws, blocks, rep)
+	res := follow(job.Gen, job.Opts, raws, blocks, rep, job.Idx, common.HexToAddress(job.Probe), newPerturbLog())
 	bz, err := json.Marshal(res)
 	if err != nil {
 		return err
@@ -148,6 +168,9 @@ func runChild(job childJob) ([]blockResult, error) {
 	}
 	var res []blockResult
 	for _, line := range strings.Split(string(outb), "\n") {
+		if line == "null" {
+			return nil, nil
+		}
 		if strings.HasPrefix(line, "[") {
 			if err := json.Unmarshal([]byte(line), &res); err != nil {
 				return nil, err
@@ -166,6 +189,8 @@ type divergence struct {
 	Other   string `json:"other"`
 }
 
+// compareRuns compares the block results of the leading replica with those of another one and returns
+// the first divergence (height = block index of the replay + 1, transaction index).
 func compareRuns(name string, lead, other []blockResult) *divergence {
 	for i := range lead {
 		if i >= len(other) {
@@ -203,10 +228,23 @@ func compareRuns(name string, lead, other []blockResult) *divergence {
 
 type repObs struct {
 	invObs
-	Replicas    []string     `json:"replicas"`
-	Divergences []divergence `json:"divergences,omitempty"`
-	ChildErr    string       `json:"child_err,omitempty"`
-	Compared    int          `json:"responses_compared"`
+	Replicas    []string          `json:"replicas"`
+	Divergences []divergence      `json:"divergences,omitempty"`
+	ChildErr    string            `json:"child_err,omitempty"`
+	Compared    int               `json:"responses_compared"`
+	HistEntries string            `json:"historical_entries"`
+	Perturbed   map[string]int    `json:"perturbations,omitempty"`         // kind:outcome -> count, all in-process replicas
+	PerturbErrs map[string]string `json:"perturbation_problems,omitempty"` // a perturbation the harness could not perform
+	Probes      []probeObs        `json:"probe_calls,omitempty"`           // what the probe contract saw in delivered transactions (leading replica)
+	BHChecked   int               `json:"blockhash_answers_checked_by_model"`
+}
+
+type probeObs struct {
+	Height int64             `json:"height"`
+	Tx     int               `json:"tx"`
+	Asked  string            `json:"asked"`
+	Env    map[string]string `json:"env"`
+	Hashes string            `json:"blockhash_pattern"` // per asked height: requested=0 (zero) / requested=H (a hash)
 }
 
 func optsName(o repOpts) string {
@@ -218,54 +256,99 @@ func optsName(o repOpts) string {
 // parameter; the comparison must then report a divergence.
 var selfTest bool
 
-func repRunCase(id string, in bhInput, gen *bhGenerator, nrep int, child bool, rng *Rng) Case {
-	// construct the replicas concurrently, each after its own delay
+// buildReplicas constructs the in-process application objects as the input says: sequentially in the
+// given order with throw-away instances before, or concurrently after random delays.
+func buildReplicas(in bhInput, nrep int, rng *Rng, l *perturbLog) []*Replica {
 	reps := make([]*Replica, nrep)
-	var wg sync.WaitGroup
-	for i := 0; i < nrep; i++ {
-		wg.Add(1)
-		delay := time.Duration(rng.Intn(30)) * time.Millisecond
-		go func(i int, d time.Duration) {
-			defer wg.Done()
-			time.Sleep(d)
-			g := in.Gen
-			if selfTest && i == 1 {
-				g.Coinomics = !g.Coinomics
-			}
-			reps[i] = newReplica(g, replicaOpts[i%len(replicaOpts)])
-		}(i, delay)
+	genFor := func(i int) bhGenesis {
+		g := in.Gen
+		if selfTest && i == 1 {
+			g.Coinomics = !g.Coinomics
+		}
+		return g
 	}
-	wg.Wait()
+	if in.Proc == nil || in.Proc.Concurrent {
+		var wg sync.WaitGroup
+		for i := 0; i < nrep; i++ {
+			wg.Add(1)
+			delay := time.Duration(rng.Intn(30)) * time.Millisecond
+			go func(i int, d time.Duration) {
+				defer wg.Done()
+				time.Sleep(d)
+				reps[i] = newReplica(genFor(i), replicaOpts[i%len(replicaOpts)])
+			}(i, delay)
+		}
+		wg.Wait()
+		return reps
+	}
+	for _, i := range buildOrder(in.Proc, nrep) {
+		if i < len(in.Proc.Extra) {
+			for k := 0; k < in.Proc.Extra[i] && k < 4; k++ {
+				if msg := throwAway(in.Gen, i+k); msg != "" {
+					l.problem("construct", msg)
+				}
+				l.note("construct", "before-replica")
+			}
+		}
+		reps[i] = newReplica(genFor(i), replicaOpts[i%len(replicaOpts)])
+	}
+	return reps
+}
+
+func repRunCase(id string, in bhInput, gen *bhGenerator, pg *procGen, nrep int, child bool, rng *Rng) Case {
+	plog := newPerturbLog()
+	reps := buildReplicas(in, nrep, rng, plog)
+	var wg sync.WaitGroup
 	lead := &histRun{Rep: reps[0]}
 	set := bhInitialValSet(in.Gen)
 	lead.Track = valTracker{sets: [3][]valEntry{nil, set, set}}
-	hooks := &stepHooks{}
 	for bi := range in.Blocks {
 		b := &in.Blocks[bi]
+		hooks := &stepHooks{TweakRaw: tweakHeader}
 		if gen != nil {
 			idx := bi
-			hooks.NTx = func(*bhBlock) int { return gen.ntx(idx) }
-			hooks.GenTx = func(h *histRun, b *bhBlock, i int) *bhTx { return gen.genTx(h, b, idx, i) }
-		} else {
-			hooks = nil
+			var front, back []bhTx
+			if pg != nil {
+				front, back = pg.front(idx), pg.back(idx)
+			}
+			own := 0
+			hooks.NTx = func(*bhBlock) int { own = gen.ntx(idx); return len(front) + own + len(back) }
+			hooks.GenTx = func(h *histRun, b *bhBlock, i int) *bhTx {
+				switch {
+				case i < len(front):
+					return &front[i]
+				case i < len(front)+own:
+					return gen.genTx(h, b, idx, i-len(front))
+				}
+				return &back[i-len(front)-own]
+			}
 		}
+		runPre(lead.Rep, in.Gen, 0, b, nil, plog)
 		lead.runBlock(b, nil, hooks)
 		if lead.Dead != "" {
 			in.Blocks = in.Blocks[:bi+1]
 			break
 		}
 	}
-	obs := repObs{}
+	obs := repObs{HistEntries: "default (10000)"}
+	entries := uint32(10000)
+	if in.Gen.Hist != nil {
+		entries = *in.Gen.Hist
+		obs.HistEntries = fmt.Sprint(entries)
+	}
 	summarise(lead, &obs.invObs)
 	raws := lead.Raw
 	blocks := in.Blocks[:len(raws)]
+	probe := lead.Rep.Probe
 	results := make([][]blockResult, nrep)
 	results[0] = lead.Blocks
+	logs := make([]*perturbLog, nrep)
 	for i := 1; i < nrep; i++ {
 		wg.Add(1)
+		logs[i] = newPerturbLog()
 		go func(i int) {
 			defer wg.Done()
-			results[i] = follow(in.Gen, replicaOpts[i%len(replicaOpts)], raws, blocks, reps[i])
+			results[i] = follow(in.Gen, replicaOpts[i%len(replicaOpts)], raws, blocks, reps[i], i, probe, logs[i])
 		}(i)
 	}
 	var childRes []blockResult
@@ -274,7 +357,10 @@ func repRunCase(id string, in bhInput, gen *bhGenerator, nrep int, child bool, r
 		wg.Add(1)
 		go func() {
 			defer wg.Done()
-			job := childJob{Gen: in.Gen, Opts: replicaOpts[1]}
+			job := childJob{Gen: in.Gen, Opts: replicaOpts[1], Idx: nrep}
+			if probe != (common.Address{}) {
+				job.Probe = probe.Hex()
+			}
 			for i := range raws {
 				job.Blocks = append(job.Blocks, toWire(raws[i], blocks[i]))
 			}
@@ -282,6 +368,9 @@ func repRunCase(id string, in bhInput, gen *bhGenerator, nrep int, child bool, r
 		}()
 	}
 	wg.Wait()
+	for i := 1; i < nrep; i++ {
+		plog.merge(logs[i])
+	}
 	leadCmp := lead.Blocks
 	if lead.Dead != "" && !lead.Stop && len(leadCmp) > len(raws) {
 		leadCmp = leadCmp[:len(raws)] // the panicking block was not recorded as raw input
@@ -296,7 +385,7 @@ func repRunCase(id string, in bhInput, gen *bhGenerator, nrep int, child bool, r
 		}
 	}
 	if child {
-		obs.Replicas = append(obs.Replicas, "separate process: "+optsName(replicaOpts[1]))
+		obs.Replicas = append(obs.Replicas, fmt.Sprintf("separate process (replica %d): %s", nrep, optsName(replicaOpts[1])))
 		if childErr != nil {
 			obs.ChildErr = childErr.Error()
 		} else if d := compareRuns("separate process", leadCmp, childRes); d != nil {
@@ -306,11 +395,47 @@ func repRunCase(id string, in bhInput, gen *bhGenerator, nrep int, child bool, r
 	for _, b := range leadCmp {
 		obs.Compared += (len(b.Txs) + 3) * (len(obs.Replicas) - 1)
 	}
-	c := Case{ID: id, Kind: "replicas", Input: in, Obs: obs}
+	// what the probe contract saw (leading replica), and the BLOCKHASH answers for the model
+	bh := append([]bhObservation{}, plog.BH...)
+	for bi, b := range leadCmp {
+		if bi >= len(blocks) {
+			break
+		}
+		for ti, t := range b.Txs {
+			if t.Kind != "probe" || t.Ret == "" || ti >= len(blocks[bi].Txs) {
+				continue
+			}
+			ret, _ := hex.DecodeString(t.Ret)
+			asked := parseReqs(blocks[bi].Txs[ti].S)
+			env, os, ok := probeDecode(ret, asked)
+			if !ok {
+				continue
+			}
+			bh = append(bh, os...)
+			if len(obs.Probes) < 12 {
+				var pat []string
+				for _, o := range os[len(probeBacks):] {
+					v := "0"
+					if o.NonZero {
+						v = "H"
+					}
+					pat = append(pat, fmt.Sprintf("%s=%s", shortBig(o.Req), v))
+				}
+				obs.Probes = append(obs.Probes, probeObs{Height: b.Height, Tx: ti, Asked: blocks[bi].Txs[ti].S, Env: env, Hashes: strings.Join(pat, " ")})
+			}
+		}
+	}
+	obs.Perturbed, obs.PerturbErrs = plog.Counts, plog.Errs
+	c := Case{ID: id, Kind: "replicas", Input: in}
+	if len(bh) > 0 {
+		c.Coq, obs.BHChecked = coqBhCase(entries, bh)
+		c.CoqList = "bh"
+	}
+	c.Obs = obs
 	c.OracleOK = len(obs.Divergences) == 0 && obs.ChildErr == ""
 	if len(obs.Divergences) > 0 {
 		d := obs.Divergences[0]
-		c.OracleMsg = fmt.Sprintf("replicas disagree at height %d on %s: leader %s, %s %s", d.Height, d.What, d.Leader, d.Replica, d.Other)
+		c.OracleMsg = fmt.Sprintf("replicas disagree at height %d (block index %d of the replay) on %s: leader %s, %s %s", d.Height, d.Height-1, d.What, d.Leader, d.Replica, d.Other)
 	} else if obs.ChildErr != "" {
 		c.OracleMsg = "the separate-process replica failed: " + obs.ChildErr
 	}
@@ -337,14 +462,44 @@ func repRunCase(id string, in bhInput, gen *bhGenerator, nrep int, child bool, r
 	if child {
 		c.Tags = append(c.Tags, "with-separate-process-replica")
 	}
-	c.Tags = append(c.Tags, fmt.Sprintf("replicas=%d", len(obs.Replicas)))
+	c.Tags = append(c.Tags, fmt.Sprintf("replicas=%d", len(obs.Replicas)), "historical-entries="+obs.HistEntries)
 	if in.Focus != "" {
 		c.Tags = append(c.Tags, "focus:"+in.Focus)
+	}
+	for k := range plog.Counts {
+		c.Tags = append(c.Tags, "perturb:"+k)
+	}
+	for k := range plog.Errs {
+		c.Tags = append(c.Tags, "perturb-problem:"+k)
+	}
+	if pg != nil && pg.shape != "" {
+		c.Tags = append(c.Tags, "shape:"+pg.shape)
+	}
+	nz, z := 0, 0
+	for _, o := range bh {
+		if o.NonZero {
+			nz++
+		} else {
+			z++
+		}
+	}
+	if nz > 0 {
+		c.Tags = append(c.Tags, "blockhash:some-non-zero")
+	}
+	if z > 0 {
+		c.Tags = append(c.Tags, "blockhash:some-zero")
 	}
 	sort.Strings(c.Tags)
 	kb, _ := json.Marshal(in)
 	c.Key = string(kb)
 	return c
+}
+
+func shortBig(x *big.Int) string {
+	if x.BitLen() > 62 {
+		return "huge"
+	}
+	return x.String()
 }
 
 func replicasDriver(cfg Config, out *Out) error {
@@ -368,7 +523,7 @@ func replicasDriver(cfg Config, out *Out) error {
 			if err := json.Unmarshal(raw, &in); err != nil {
 				return err
 			}
-			out.Emit(repRunCase(fmt.Sprintf("replay-%d", i), in, nil, 3, true, r))
+			out.Emit(repRunCase(fmt.Sprintf("replay-%d", i), in, nil, nil, 3, true, r))
 			i++
 			return nil
 		})
@@ -389,13 +544,22 @@ func replicasDriver(cfg Config, out *Out) error {
 			fs := []string{"x/evm", "precompiles", "x/liquidvesting", "x/vesting", "x/erc20", "x/ucdao", "x/bank", "app"}
 			focus = fs[cr.Intn(len(fs))]
 		}
-		g := newBhGenerator(cr, nb, focus)
-		in := bhInput{Gen: g.genesis(), Focus: focus}
-		for b := 0; b < nb; b++ {
-			in.Blocks = append(in.Blocks, g.block(b))
-		}
 		child := i%4 == 0
-		out.Emit(repRunCase(fmt.Sprintf("s%d-%d", cfg.Seed, i), in, g, nrep, child, cr))
+		addressable := nrep
+		if child {
+			addressable++
+		}
+		g := newBhGenerator(cr, nb, focus)
+		pg := newProcGen(cr.Fork(), nb, addressable)
+		in := bhInput{Gen: g.genesis(), Focus: focus, Proc: pg.proc()}
+		he := pg.entries
+		in.Gen.Hist = &he
+		for b := 0; b < nb; b++ {
+			blk := g.block(b)
+			blk.Pre = pg.pre[b]
+			in.Blocks = append(in.Blocks, blk)
+		}
+		out.Emit(repRunCase(fmt.Sprintf("s%d-%d", cfg.Seed, i), in, g, pg, nrep, child, cr))
 	}
 	return nil
 }
